@@ -70,6 +70,7 @@ def soft_rules(chk, cfgname, m, mod):
             chk.violation('I-round-consistency', base + '|lemma', 'aes software S-box pair: %s' % lem)
         else:
             chk.undecided.append('software hazmat rules M / I / Ps in %s: bit-level mode not applicable (%s)' % (cfgname, lem))
+            return None
         return 0
     try:
         equiv.fresh_terms()
@@ -302,6 +303,7 @@ def run(chk, facts_by_config):
             for mod in sorted(set(f['path'].rsplit('::', 1)[0] for f in m.fns if f['path'].endswith('::hazmat::cipher_round_par')
                                   and 'soft' in f['path'])):
                 nS = soft_rules(chk, cfgname, m, mod)
-                chk.floor('soft-rules', nS, 'Soft.' + cfgname)
+                if nS is not None:
+                    chk.floor('soft-rules', nS, 'Soft.' + cfgname)
         chk.floor('H-dispatch', nH, 'H.' + cfgname)
         chk.floor('P', nP, 'P.' + cfgname)
